@@ -150,26 +150,22 @@ asn_enc_rval_t
 NativeInteger_encode_der(const asn_TYPE_descriptor_t *sd, const void *ptr,
                          int tag_mode, ber_tlv_tag_t tag,
                          asn_app_consume_bytes_f *cb, void *app_key) {
+    const asn_INTEGER_specifics_t *specs =
+        (const asn_INTEGER_specifics_t *)sd->specifics;
     unsigned long native = *(const unsigned long *)ptr; /* Disable sign ext. */
     asn_enc_rval_t erval;
 	INTEGER_t tmp;
-
-#ifdef	WORDS_BIGENDIAN		/* Opportunistic optimization */
-
-	tmp.buf = (uint8_t *)&native;
-	tmp.size = sizeof(native);
-
-#else	/* Works even if WORDS_BIGENDIAN is not set where should've been */
-	uint8_t buf[sizeof(native)];
+	uint8_t buf[1 + sizeof(native)];
 	uint8_t *p;
 
 	/* Prepare a fake INTEGER */
-	for(p = buf + sizeof(buf) - 1; p >= buf; p--, native >>= 8)
+	for(p = buf + sizeof(buf) - 1; p > buf; p--, native >>= 8)
 		*p = (uint8_t)native;
+	/* Leading octet: 0 for an unsigned value, else the sign extension */
+	*p = (specs && specs->field_unsigned) ? 0 : ((p[1] & 0x80) ? 0xff : 0);
 
 	tmp.buf = buf;
 	tmp.size = sizeof(buf);
-#endif	/* WORDS_BIGENDIAN */
 	
 	/* Encode fake INTEGER */
 	erval = INTEGER_encode_der(sd, &tmp, tag_mode, tag, cb, app_key);
